@@ -248,6 +248,8 @@ const (
 	phOtherSigner
 	phAnnotated
 	phForgedNextPowers
+	phForgedNextPubKeysOnly // only the PubKeys slice is foreign; Validators, hashes, block hash, signature untouched
+	phForgedCurPubKeysOnly
 	phVariants
 )
 
@@ -269,7 +271,7 @@ func (s *sim) buildPH(op Op) builtPH {
 	n := len(set.Keys)
 
 	// forged copies start from a known proposal of that height
-	if (op.V == phForgedNext || op.V == phForgedCur || op.V == phForgedNextPowers) && len(s.knownAt(h)) > 0 {
+	if (op.V == phForgedNext || op.V == phForgedCur || op.V == phForgedNextPowers || op.V == phForgedNextPubKeysOnly || op.V == phForgedCurPubKeysOnly) && len(s.knownAt(h)) > 0 {
 		k := s.knownAt(h)
 		orig := k[op.D%len(k)]
 		ph := orig
@@ -283,6 +285,18 @@ func (s *sim) buildPH(op Op) builtPH {
 		case phForgedCur:
 			cur, _ := s.w.lookup(orig.Header.ValidatorSet.PubKeyHash, orig.Header.ValidatorSet.VotePowerHash)
 			ph.Header.ValidatorSet = s.w.forgedList(cur, false)
+		case phForgedNextPubKeysOnly:
+			nx, _ := s.w.lookup(orig.Header.NextValidatorSet.PubKeyHash, orig.Header.NextValidatorSet.VotePowerHash)
+			f := s.w.forgedList(nx, false)
+			vs := orig.Header.NextValidatorSet
+			vs.PubKeys = f.PubKeys
+			ph.Header.NextValidatorSet = vs
+		case phForgedCurPubKeysOnly:
+			cur, _ := s.w.lookup(orig.Header.ValidatorSet.PubKeyHash, orig.Header.ValidatorSet.VotePowerHash)
+			f := s.w.forgedList(cur, false)
+			vs := orig.Header.ValidatorSet
+			vs.PubKeys = f.PubKeys
+			ph.Header.ValidatorSet = vs
 		}
 		return builtPH{PH: ph, H: h, R: orig.Round, Forged: true, Variant: op.V, ProposerOK: true, ParentHash: string(orig.Header.PrevBlockHash)}
 	}
@@ -458,7 +472,7 @@ func (s *sim) phTrigger(b builtPH) string {
 		return ""
 	}
 	acceptable := b.ProposerOK && (b.Variant == phFresh || b.Variant == phAltNext || b.Variant == phForgedNext || b.Variant == phForgedCur ||
-		b.Variant == phForgedNextPowers || b.Variant == phWrongPrev || b.Variant == phAnnotated)
+		b.Variant == phForgedNextPowers || b.Variant == phForgedNextPubKeysOnly || b.Variant == phForgedCurPubKeysOnly || b.Variant == phWrongPrev || b.Variant == phAnnotated)
 	if h == s.vv.Height && (r == s.vv.Round || r == s.vv.Round+1) && h > s.w.init && acceptable {
 		switch b.PCP {
 		case pcpKeyIDLen1, pcpKeyIDLen0:
